@@ -23,8 +23,8 @@ CLAIMS = {
              "(same sem), not proved; carbon numbering of modified residues is compared with a chemistry-level rule per residue, not proved; "
              "two open known findings (numbering of 1-amino-ketoses and 2,6-anhydro sugars). " + NOTE, ref="6 C01, 14"),
     "C03": dict(
-        technique="Lean 4 theorem by induction over the syntax tree (walker = pre-order numbering of the compositional reading) + correspondence",
-        text="C03_walk_eq_denote is proved for all inputs (any depth/width, floating fragments). The Model (lexer, priority-ordered parser over the "
+        technique="Lean 4 theorems by induction over the syntax tree (walker = pre-order numbering of the compositional reading; one node per written residue; tree shape) + correspondence",
+        text="C03_walk_eq_denote is proved for all inputs (any depth/width, floating fragments); C03_one_node_per_residue: node 0 is the reducing-end residue and the node list is a permutation of the written residues; C03_tree_shape: every node but the root has exactly one incoming edge, from a smaller id. The Model (lexer, priority-ordered parser over the "
              "regenerated grammar, typed syntax, walker) is tied to the code by comparing node names and per-node ordered child lists on "
              "bounded-exhaustive tree shapes x notations, random trees to depth 60 with random grammar-derived names, and foreign-text insertions; "
              "the real code is also judged directly against the written tree (unordered) and must reject foreign text.",
@@ -69,7 +69,7 @@ CLAIMS.update({
     "C09": dict(
         technique="Lean 4 theorems by list induction over a model of converter.py (any conv, any argument mix) + differential runs of convert/convert_generator",
         text="C09_pairs, C09_aligned, C09_isolated, C09_failing_input_empty, C09_generator_same are proved for every per-glycan behaviour and every "
-             "argument combination. The model is tied to converter.py by running both on the same call (conv table taken from direct Glycan calls); the "
+             "argument combination; C09_file_lines_roundtrip / C09_line_terminators: the Model of reading a glycan file (universal newlines, Python's strip) returns exactly the glycans written one per line. The model - which receives the raw file content - is tied to converter.py by running both on the same call (conv table taken from direct Glycan calls); the "
              "real calls are also judged directly against the Spec pairs. Running time is measured (growth ratio on doubling), not proved.",
         note="partial: polynomial running time is a measurement; exceptions that do escape convert by design (missing file, raising user generator) are "
              "outside the theorem. " + NOTE, ref="6 C09"),
@@ -81,35 +81,35 @@ CLAIMS.update({
     "C11": dict(
         technique="Lean 4 theorems over a World model (logger switch, stdout, files) + call histories replayed against fresh interpreters",
         text="C11_logger_restored(_generator), C11_stdout_clean, C11_files_untouched, C11_result_independent_of_world, C11_history_logger are proved for all "
-             "argument combinations and all histories of convert calls. Random call histories run in one fresh interpreter and every call alone in its own; "
+             "argument combinations and all histories of convert calls; C11_tables_frame / C11_open_form_history_independent / C11_without_copy_counterexample over a heap model of the class-level open-form table (copy.copy before the rewrite). The World model's logger switch, stdout lines and file lines are compared with every observed convert call. Random call histories run in one fresh interpreter and every call alone in its own; "
              "results, logger switch, fd-level stdout, caller lists and a digest of the three class-level tables must agree.",
-        note="partial: that the per-glycan conversion is a function of the glycan alone (copy/deepcopy discipline over the class-level tables) is tied by the "
-             "history runs, not yet by a heap model. " + NOTE, ref="6 C11"),
+        note="partial: the deepcopy of the parse tree before marking (merger.py) and the recipe list shared with the walker are tied by the history runs (same method repeated around get_smiles, fresh-interpreter comparison), not by the heap model. " + NOTE, ref="6 C11, 14"),
     "C12": dict(
         technique="Lean 4 theorems (all sinks render the same pairs; executor-independence under joblib's order contract) + all delivery paths x cpu_count",
         text="C12_sinks_agree, C12_schedule_independent, C12_direct_use are proved; batches are delivered through list/file/stdout/generator/CLI with cpu_count in "
              "{1,2,4,16,-1} and compared line by line with the Spec pairs.",
         note="partial: joblib returning results in submission order is a hypothesis of the theorem; process start-up, pickling and fd inheritance are exercised, not modelled. " + NOTE, ref="6 C12"),
     "C13": dict(
-        technique="Lean 4 decision-logic theorems (suffix wins, option fallback, start fallback) + RDKit stereocentre diff over anomer/option/start variants",
-        text="C13_suffix_wins, C13_option_used_without_suffix, C13_unknown_option_is_undefined, C13_start_fallback are proved. For vocabulary residues and random "
+        technique="Lean 4 theorems (one differing atom of the reducing-end residue = one differing atom of the whole glycan's Spec molecule, by induction over the children: C13_one_centre_whole_glycan; decision logic: suffix wins, option fallback, start fallback) + Model/code correspondence inside Merger.merge + RDKit stereocentre diff over anomer/option/start variants",
+        text="C13_one_centre_whole_glycan: two reducing-end strings equal but for one atom token, with the same children of any depth, give Spec molecules with the same bond events that differ in exactly that atom (with C08_anomers_one_mark_* for the library rows and C01_tree_refines_spec for the assembled strings). "
+             "C13_suffix_wins, C13_option_used_without_suffix, C13_unknown_option_is_undefined, C13_start_fallback are proved over Models (GlyModel/Api/Query.lean) that are compared with the start position and root configuration observed inside the real Merger.merge_int on every run. For vocabulary residues and random "
              "glycans the a / b / undefined forms must differ in exactly one anomeric-type centre (erase -> undefined, invert -> other anomer) and every start value must give the same molecule.",
-        note="partial: the lift of the one-centre table theorem through grafts is not yet proved. " + NOTE, ref="6 C13"),
+        note="partial: that RDKit's rooted writings for different `start` atoms denote the same marked molecule is checked as molecules (canonical SMILES), not proved. " + NOTE, ref="6 C13, 14"),
     "C17": dict(
         technique="Lean 4 theorems over a model of __main__.py (expansion = flatMap, one line per glycan) + in-process and subprocess CLI runs",
-        text="C17_expand and C17_lines are proved for every argument list and every file content; the CLI is run in-process and as `python -m glyles` on "
+        text="C17_expand, C17_lines and C17_file_argument are proved for every argument list and every file content (the Model splits and strips the raw file content itself); the CLI is run in-process and as `python -m glyles` on "
              "argument lists mixing literals and files and compared with the Spec lines and with the model.",
         note="Zero glycans (single empty file): no output file is written; accepted as 'nothing to list' (C17_empty_writes_nothing documents it). An existing -o file triggers an interactive prompt: not exercised. " + NOTE, ref="6 C17"),
 })
 
 CLAIMS.update({
     "C04": dict(
-        technique="Lean 4 table theorems (kernel evaluation over the regenerated functional_groups table) + exhaustive single modifications against a hand-written Spec fragment table (RDKit molzip)",
-        text="C04_fg_fragments_wellformed, C04_tables_consistent, C04_fragments_with_other_labels are decided by the kernel over the complete regenerated "
+        technique="Lean 4 theorems (reactor token dispatch Model: C04_single_mod, C04_commute; proved-sound graft certificate for the placeholder substitution of every observed assemble_chains call: C04_certified_assemble; table theorems by kernel evaluation) + exhaustive single modifications against a hand-written Spec fragment table (RDKit molzip)",
+        text="C04_single_mod / C04_commute are proved over the Model of the first reactor round (token dispatch, extract_bridge, set_fg), which reproduces the code's side_chains on every observed call; the Model of assemble_chains' string half reproduces the stored residue SMILES text-identically and C04_certified_assemble proves that it denotes the placeholder molecule with every fragment grafted at its placeholder (every other atom and stereo mark unchanged). C04_fg_fragments_wellformed, C04_tables_consistent, C04_fragments_with_other_labels are decided by the kernel over the complete regenerated "
              "tables. Thorough runs every library sugar x every free position x every functional-group token (54k conversions); for ~95 tokens the expected "
              "molecule is built from a hand-written fragment table that says what the token stands for and whether the O/N carries it or is replaced; "
              "for all tokens the sugar skeleton must stay a stereo-substructure; sets of 2-4 modifications are written in all orders.",
-        note="partial: the reactor's token dispatch (react / set_fg / assemble_chains) is not yet transcribed into the Model; two open known-finding families "
+        note="partial: which atom carries the placeholder (find_oxygen / carbon numbering, RDKit graph level) and the second reactor round are judged by the sweep, not modelled; deoxy chains ('H') and the uronic '(=O)O' chain are outside the graft certificate; two open known-finding families "
              "(O replaced instead of carrying the group for 33 tokens; positional groups on amine positions). " + NOTE, ref="6 C04"),
     "C08": dict(
         technique="Lean 4 table theorems by kernel evaluation over the complete regenerated monosaccharide tables + exhaustive library sweep judged with RDKit",
@@ -120,15 +120,15 @@ CLAIMS.update({
         note="partial: that the differing mark sits on the anomeric carbon and the alditol / mirror / distinctness clauses are decided by the RDKit sweep, not yet by "
              "a Lean isomorphism checker; class formulas cover 13 classes, other codes only get the structural clauses. " + NOTE, ref="6 C08"),
     "C14": dict(
-        technique="Lean 4 theorems on the open-form text rewrites + exhaustive prefix/suffix sweep against RDKit graph operations that define each transformation",
-        text="C14_open_rows_shape (kernel, all open rows), C14_onic_text, C14_aric_text are proved. Every library sugar x {-ol, -onic, -aric, A, n d, N, n e, x,y-Anhydro} "
+        technique="Lean 4 theorems over a Model of reactor_basic.py (open-form rewrites at text and at graph level by kernel evaluation over all open rows; resizing extension) tied by correspondence inside real conversions + exhaustive prefix/suffix sweep against RDKit graph operations that define each transformation",
+        text="C14_open_rows_shape, C14_onic_table, C14_aric_table (kernel, all open rows: the rewrites add exactly =O on C1 / the terminal carbon), C14_onic_text, C14_aric_text, C14_ol_is_the_table_row, C14_onic_is_the_c1_rewrite, C14_aric_is_both_rewrites are proved over GlyModel/Mono/OpenForm.lean, whose open-form text and resizing extension are compared with what check_for_open_form / check_for_resizing produce inside real conversions. Every library sugar x {-ol, -onic, -aric, A, n d, N, n e, x,y-Anhydro} "
              "x every applicable position (thorough: all pairs) and chain-length suffixes are compared with the Spec operation applied to the parent molecule "
              "(stereo-preserving, positions by chemistry-level numbering).",
-        note="partial: resize and anhydro are not yet in the Model; 45 open known findings (anhydro bridges whose bicyclic product the carbon numbering cannot handle "
+        note="partial: the anhydro graph edit, deoxy / amino / epimer (RDKit level) are judged by the sweep, not modelled; 45 open known findings (anhydro bridges whose bicyclic product the carbon numbering cannot handle "
              "raise; the uronic walk on muramic acid). " + NOTE, ref="6 C14"),
     "C16": dict(
-        technique="Lean 4 theorems (node count of the walked forest = size, structural bounds) + summary/count/save_dot against the written tree and RDKit",
-        text="C16_monomers is proved for every forest; summary() is compared with the written tree and with RDKit on get_smiles, count() with the Spec count for "
+        technique="Lean 4 theorems (node count of the walked forest = size; node matchers of count: stricter matching never adds a match for one-token residues, kernel-checked counterexample otherwise) + Model/code correspondence of recipe_equality + summary/count/save_dot against the written tree and RDKit",
+        text="C16_monomers is proved for every forest; C16_some_le_basic_partial / C16_some_gt_basic_counterexample over the matcher Model, which is compared with recipe_equality on 1500 residue pairs per run; summary() is compared with the written tree and with RDKit on get_smiles, count() with the Spec count for "
              "single-residue queries in all modes, self- and sub-chain queries must match at least once, monotonicity basic >= some >= every, save_dot parsed back.",
         note="partial: count's Spec (countSpec over DiGraphMatcher) is executable only; one open known finding (every > some for differently spelled residues). " + NOTE, ref="6 C16"),
 })
